@@ -3,6 +3,7 @@
 package impl
 
 import (
+	"math"
 	"unsafe"
 
 	"google.golang.org/protobuf/encoding/protowire"
@@ -277,4 +278,326 @@ func H_M2_unknown_verbatim() {
 	nd.Assert(mEq(x.unknownFields, want), "unknown fields are kept in order with number, wire type and payload bytes unchanged")
 	canon, merr := mCanon(mi, p)
 	nd.Assert(merr == nil && mEq(canon, want), "Marshal re-emits the unknown fields unchanged")
+}
+
+// H_M2_packed_reference: value-level oracle for the generated slice coders, whose packed and
+// unpacked branches each inline their own 1- and 2-byte varint fast paths. A round trip cannot
+// see a decoder that misreads an element consistently, so the decoded elements are compared with
+// protowire.ConsumeVarint (C01/C02) directly, the packed list with the same elements sent as
+// unpacked records, and a minimally encoded int64/sint64 list with its own re-encoding.
+//
+//verif:props=C03,C06 bounds=VAllPacked;varint-kind-field(1..5);1-2-elements;each-an-exact-shape-varint-of-1|2|3(quick)+5|10(thorough)-bytes maxsteps=8000000 timeout=60000
+func H_M2_packed_reference() {
+	fld := nd.Int(1, 5)
+	cnt := nd.Int(1, 2)
+	shapes := []int{1, 2, 3}
+	if nd.Thorough() {
+		shapes = []int{1, 2, 3, 5, 10}
+	}
+	var payload, unpacked []byte
+	var ref [2]uint64
+	minimal := true
+	for i := 0; i < cnt; i++ {
+		n := shapes[nd.Int(0, len(shapes)-1)]
+		v := nd.BytesN(n)
+		for j := 0; j < n-1; j++ {
+			nd.Assume(v[j] >= 0x80)
+		}
+		nd.Assume(v[n-1] < 0x80)
+		if n == 10 {
+			nd.Assume(v[9] <= 1)
+		}
+		if n > 1 && v[n-1] == 0 {
+			minimal = false
+		}
+		r, rn := protowire.ConsumeVarint(v)
+		nd.Assert(rn == n, "reference varint reader consumes the element")
+		ref[i] = r
+		payload = append(payload, v...)
+		unpacked = append(unpacked, byte(fld<<3)|0)
+		unpacked = append(unpacked, v...)
+	}
+	packed := append([]byte{byte(fld<<3) | 2, byte(len(payload))}, payload...)
+	mi, p := vType(13)
+	_, e1 := mi.unmarshalPointer(packed, p, 0, mOpts())
+	_, q := vType(13)
+	_, e2 := mi.unmarshalPointer(unpacked, q, 0, mOpts())
+	nd.Assert(e1 == nil && e2 == nil, "well-formed packed and unpacked lists decode")
+	if e1 != nil || e2 != nil {
+		return
+	}
+	nd.Reach("decoded")
+	x := (*VAllPacked)(p.p)
+	switch fld {
+	case 1:
+		nd.Assert(len(x.I32) == cnt, "element count (int32)")
+		for i := 0; i < cnt && i < len(x.I32); i++ {
+			nd.Assert(x.I32[i] == int32(ref[i]), "packed int32 element equals the reference varint")
+		}
+	case 2:
+		nd.Assert(len(x.E) == cnt, "element count (enum)")
+		for i := 0; i < cnt && i < len(x.E); i++ {
+			nd.Assert(x.E[i] == int32(ref[i]), "packed enum element equals the reference varint")
+		}
+	case 3:
+		nd.Assert(len(x.U32) == cnt, "element count (uint32)")
+		for i := 0; i < cnt && i < len(x.U32); i++ {
+			nd.Assert(x.U32[i] == uint32(ref[i]), "packed uint32 element equals the reference varint")
+		}
+	case 4:
+		nd.Assert(len(x.I64) == cnt, "element count (int64)")
+		for i := 0; i < cnt && i < len(x.I64); i++ {
+			nd.Assert(x.I64[i] == int64(ref[i]), "packed int64 element equals the reference varint")
+		}
+	default:
+		nd.Assert(len(x.S64) == cnt, "element count (sint64)")
+		for i := 0; i < cnt && i < len(x.S64); i++ {
+			nd.Assert(x.S64[i] == protowire.DecodeZigZag(ref[i]), "packed sint64 element equals the zig-zag decoded reference varint")
+		}
+	}
+	c1, _ := mCanon(mi, p)
+	c2, _ := mCanon(mi, q)
+	nd.Assert(mEq(c1, c2), "a packed list decodes to the same elements as the same elements sent unpacked")
+	if minimal && fld >= 4 {
+		nd.Reach("minimal")
+		nd.Assert(mEq(c1, packed), "a minimally encoded packed int64/sint64 list re-encodes to itself")
+	}
+}
+
+// mShapeVarint returns an exact-shape varint of n bytes (n-1 continuation bytes, then a final
+// byte) with free payload bits, and the value protowire.ConsumeVarint assigns to it.
+func mShapeVarint(n int) ([]byte, uint64) {
+	v := nd.BytesN(n)
+	for j := 0; j < n-1; j++ {
+		nd.Assume(v[j] >= 0x80)
+	}
+	nd.Assume(v[n-1] < 0x80)
+	if n == 10 {
+		nd.Assume(v[9] <= 1)
+	}
+	r, rn := protowire.ConsumeVarint(v)
+	nd.Assert(rn == n, "reference varint reader consumes the element")
+	return v, r
+}
+
+// H_M2_value_reference: the value a varint field holds after decoding equals the value
+// protowire.ConsumeVarint (C01) reads, converted as the kind prescribes — for every varint kind in
+// the pointer (VAll2), implicit-presence (VAll3) and unpacked-slice (VAllRep) representation,
+// each of which has its own generated consume function with its own inlined 1/2-byte fast path.
+//
+//verif:props=C03,C06 bounds=VAll2|VAll3|VAllRep;one-varint-field;exact-shape-varint-of-1|2|3(quick)+5|10(thorough)-bytes maxsteps=8000000 timeout=60000
+func H_M2_value_reference() {
+	shapes := []int{1, 2, 3}
+	if nd.Thorough() {
+		shapes = []int{1, 2, 3, 5, 10}
+	}
+	v, r := mShapeVarint(shapes[nd.Int(0, len(shapes)-1)])
+	switch nd.Int(0, 2) {
+	case 0:
+		fld := nd.Int(1, 4)
+		mi, p := vType(10)
+		_, err := mi.unmarshalPointer(append([]byte{byte(fld << 3)}, v...), p, 0, mOpts())
+		nd.Assert(err == nil, "one varint field decodes (pointer representation)")
+		if err != nil {
+			return
+		}
+		nd.Reach("pointer")
+		x := (*VAll2)(p.p)
+		switch fld {
+		case 1:
+			nd.Assert(x.E != nil && *x.E == int32(r), "enum value equals the reference varint")
+		case 2:
+			nd.Assert(x.U32 != nil && *x.U32 == uint32(r), "uint32 value equals the reference varint")
+		case 3:
+			nd.Assert(x.I64 != nil && *x.I64 == int64(r), "int64 value equals the reference varint")
+		default:
+			nd.Assert(x.S64 != nil && *x.S64 == protowire.DecodeZigZag(r), "sint64 value equals the zig-zag decoded reference varint")
+		}
+	case 1:
+		fld := nd.Int(1, 5)
+		mi, p := vType(11)
+		_, err := mi.unmarshalPointer(append([]byte{byte(fld << 3)}, v...), p, 0, mOpts())
+		nd.Assert(err == nil, "one varint field decodes (implicit presence)")
+		if err != nil {
+			return
+		}
+		nd.Reach("implicit")
+		x := (*VAll3)(p.p)
+		switch fld {
+		case 1:
+			nd.Assert(x.E == int32(r), "enum value equals the reference varint (implicit)")
+		case 2:
+			nd.Assert(x.U32 == uint32(r), "uint32 value equals the reference varint (implicit)")
+		case 3:
+			nd.Assert(x.I64 == int64(r), "int64 value equals the reference varint (implicit)")
+		case 4:
+			nd.Assert(x.U64 == r, "uint64 value equals the reference varint (implicit)")
+		default:
+			nd.Assert(x.S32 == int32(protowire.DecodeZigZag(r&0xffffffff)), "sint32 value equals the zig-zag decoded reference varint (implicit)")
+		}
+	default:
+		fld := nd.Int(1, 7)
+		mi, p := vType(12)
+		_, err := mi.unmarshalPointer(append([]byte{byte(fld << 3)}, v...), p, 0, mOpts())
+		nd.Assert(err == nil, "one varint record decodes (unpacked list)")
+		if err != nil {
+			return
+		}
+		nd.Reach("slice")
+		x := (*VAllRep)(p.p)
+		switch fld {
+		case 1:
+			nd.Assert(len(x.B) == 1 && x.B[0] == (r != 0), "bool element equals the reference varint")
+		case 2:
+			nd.Assert(len(x.E) == 1 && x.E[0] == int32(r), "enum element equals the reference varint")
+		case 3:
+			nd.Assert(len(x.S32) == 1 && x.S32[0] == int32(protowire.DecodeZigZag(r&0xffffffff)), "sint32 element equals the zig-zag decoded reference varint")
+		case 4:
+			nd.Assert(len(x.U32) == 1 && x.U32[0] == uint32(r), "uint32 element equals the reference varint")
+		case 5:
+			nd.Assert(len(x.I64) == 1 && x.I64[0] == int64(r), "int64 element equals the reference varint")
+		case 6:
+			nd.Assert(len(x.S64) == 1 && x.S64[0] == protowire.DecodeZigZag(r), "sint64 element equals the zig-zag decoded reference varint")
+		default:
+			nd.Assert(len(x.U64) == 1 && x.U64[0] == r, "uint64 element equals the reference varint")
+		}
+	}
+}
+
+// H_M2_encode_reference: encoder-side value oracle. One field of a message built directly in Go
+// (not by decoding) holds a free value; Marshal must produce exactly tag ++ reference encoding
+// (protowire.AppendVarint/AppendFixed32/AppendFixed64, zig-zag where the kind says so), and
+// Size must be its length. Together with H_M2_value_reference this pins both directions to
+// protowire, so a consistent change to a generated encoder/decoder pair cannot hide in a round trip.
+//
+//verif:props=C03,C04 bounds=VAll3(implicit)|VAll2(pointer)|VAllRep(one-element-list);one-field;free-32/64-bit-value maxsteps=8000000 timeout=60000
+func H_M2_encode_reference() {
+	var want []byte
+	var mi *MessageInfo
+	var p pointer
+	switch nd.Int(0, 2) {
+	case 0:
+		x := new(VAll3)
+		mi, p = vMI_All3(), pointer{p: unsafe.Pointer(x)}
+		switch nd.Int(1, 10) {
+		case 1:
+			v := nd.Int32()
+			nd.Assume(v != 0)
+			x.E = v
+			want = protowire.AppendVarint([]byte{1 << 3}, uint64(int64(v)))
+		case 2:
+			v := nd.Uint32()
+			nd.Assume(v != 0)
+			x.U32 = v
+			want = protowire.AppendVarint([]byte{2 << 3}, uint64(v))
+		case 3:
+			v := nd.Int64()
+			nd.Assume(v != 0)
+			x.I64 = v
+			want = protowire.AppendVarint([]byte{3 << 3}, uint64(v))
+		case 4:
+			v := nd.Uint64()
+			nd.Assume(v != 0)
+			x.U64 = v
+			want = protowire.AppendVarint([]byte{4 << 3}, v)
+		case 5:
+			v := nd.Int32()
+			nd.Assume(v != 0)
+			x.S32 = v
+			want = protowire.AppendVarint([]byte{5 << 3}, protowire.EncodeZigZag(int64(v)))
+		case 6:
+			v := nd.Uint32()
+			nd.Assume(v != 0)
+			x.F32 = v
+			want = protowire.AppendFixed32([]byte{6<<3 | 5}, v)
+		case 7:
+			v := nd.Uint64()
+			nd.Assume(v != 0)
+			x.F64 = v
+			want = protowire.AppendFixed64([]byte{7<<3 | 1}, v)
+		case 8:
+			v := nd.Int32()
+			nd.Assume(v != 0)
+			x.SF32 = v
+			want = protowire.AppendFixed32([]byte{8<<3 | 5}, uint32(v))
+		case 9:
+			v := nd.Int64()
+			nd.Assume(v != 0)
+			x.SF64 = v
+			want = protowire.AppendFixed64([]byte{9<<3 | 1}, uint64(v))
+		default:
+			bits := nd.Uint64()
+			nd.Assume(bits != 0)
+			x.D = math.Float64frombits(bits)
+			want = protowire.AppendFixed64([]byte{10<<3 | 1}, bits)
+		}
+		nd.Reach("implicit")
+	case 1:
+		x := new(VAll2)
+		mi, p = vMI_All2(), pointer{p: unsafe.Pointer(x)}
+		switch nd.Int(1, 6) {
+		case 1:
+			v := nd.Int32()
+			x.E = &v
+			want = protowire.AppendVarint([]byte{1 << 3}, uint64(int64(v)))
+		case 2:
+			v := nd.Uint32()
+			x.U32 = &v
+			want = protowire.AppendVarint([]byte{2 << 3}, uint64(v))
+		case 3:
+			v := nd.Int64()
+			x.I64 = &v
+			want = protowire.AppendVarint([]byte{3 << 3}, uint64(v))
+		case 4:
+			v := nd.Int64()
+			x.S64 = &v
+			want = protowire.AppendVarint([]byte{4 << 3}, protowire.EncodeZigZag(v))
+		case 5:
+			v := nd.Uint64()
+			x.F64 = &v
+			want = protowire.AppendFixed64([]byte{5<<3 | 1}, v)
+		default:
+			v := nd.Int32()
+			x.SF32 = &v
+			want = protowire.AppendFixed32([]byte{6<<3 | 5}, uint32(v))
+		}
+		nd.Reach("pointer")
+	default:
+		x := new(VAllRep)
+		mi, p = vMI_AllRep(), pointer{p: unsafe.Pointer(x)}
+		switch nd.Int(1, 6) {
+		case 1:
+			v := nd.Bool()
+			x.B = []bool{v}
+			want = []byte{1 << 3, 0}
+			if v {
+				want[1] = 1
+			}
+		case 2:
+			v := nd.Int32()
+			x.S32 = []int32{v}
+			want = protowire.AppendVarint([]byte{3 << 3}, protowire.EncodeZigZag(int64(v)))
+		case 3:
+			v := nd.Int64()
+			x.I64 = []int64{v}
+			want = protowire.AppendVarint([]byte{5 << 3}, uint64(v))
+		case 4:
+			v := nd.Int64()
+			x.S64 = []int64{v}
+			want = protowire.AppendVarint([]byte{6 << 3}, protowire.EncodeZigZag(v))
+		case 5:
+			v := nd.Uint32()
+			x.F32 = []uint32{v}
+			want = protowire.AppendFixed32([]byte{9<<3 | 5}, v)
+		default:
+			v := nd.Int64()
+			x.SF64 = []int64{v}
+			want = protowire.AppendFixed64([]byte{11<<3 | 1}, uint64(v))
+		}
+		nd.Reach("slice")
+	}
+	got, err := mi.marshalAppendPointer(nil, p, marshalOptions{})
+	nd.Assert(err == nil, "marshal succeeds")
+	nd.Assert(mEq(got, want), "Marshal emits tag ++ reference encoding of the field's value")
+	nd.Assert(mi.sizePointer(p, marshalOptions{}) == len(want), "Size equals the length of the reference encoding")
 }
